@@ -268,7 +268,7 @@ pub struct ServerInner {
 }
 
 /// signals.rs
-#[derive(Clone, Copy)]
+#[derive(Clone, Copy, PartialEq, Eq, Structural)]
 //@extract_type file=actix-server/src/signals.rs item="enum SignalKind"
 /// signals.rs Signals (a future over the OS signal streams; not under contract).  PROPHECY name `next_poll`: what the
 /// next poll of this future returns
